@@ -113,7 +113,7 @@ def c16(tier, seed):
 def c15(tier, seed):
     th = '1' if tier == 'thorough' else '0'
     return run_sat('C15', tier, seed,
-        lambda t: [('MC_base62', 'MC_base62', False)],
+        lambda t: [('MC_base62', 'MC_base62', False), ('MC_dirhash', 'MC_dirhash', False), ('Defect_dirhash_undelimited', 'MC_dirhash', True)],
         lambda t, s: [['ticket', '--thorough', th, '--seed', str(s)],
                       ['hash', '--thorough', th, '--seed', str(s), '--dir', V.WORK + '/realfs_C15', '--bin', V.REAL_BIN]],
         'TicketTrace', lambda r: r['kind'] != 'file' or len(r['bytes']) > 0,
